@@ -327,7 +327,7 @@ def gen_saturate(rng, algo, gen='G-sim-saturate'):
                 duration=nticks / tps, pipes=pipes, segs=segs, arrivals=arrivals)
 
 
-def gen_abandon(rng, gen='G-sim-overbook-abandon'):
+def gen_abandon(rng, gen='G-sim-overbook-abandon', algo='overbook'):
     """overbook: pipelines with parallel branches of which one always dies (demand above the pool), so that the
     pipeline is abandoned after three failures WHILE a sibling container of the same pipeline is still running;
     further pipelines keep arriving, few CPUs, so that every freed CPU matters"""
@@ -363,5 +363,48 @@ def gen_abandon(rng, gen='G-sim-overbook-abandon'):
         segs.append([op(rng.randint(1, 6), rng.choice([0.5, 1, 2])) for _ in range(n)])
         arrivals.append((rng.randint(0, nticks // 2), len(pipes) - 1))
     arrivals.sort(key=lambda a: a[0])
+    if algo != 'overbook':
+        # the same workloads for the single-operator-container mode of another policy on several pools: sibling
+        # operators of one pipeline run at the same time in different pools, one of them is killed
+        return dict(gen=gen, algo=algo, tps=tps, over=0, multi=0, npools=rng.choice([2, 3, 4]), cpu=cpu, ram=ram,
+                    duration=nticks / tps, pipes=pipes, segs=segs, arrivals=arrivals)
     return dict(gen=gen, algo='overbook', tps=tps, over=1, multi=rng.choice([0, 1]), npools=npools, cpu=cpu, ram=ram,
                 duration=nticks / tps, pipes=pipes, segs=segs, arrivals=arrivals)
+
+
+def gen_branches(rng, algo, gen='G-sim-branches'):
+    """single-operator containers and pipelines made of 2-3 parallel chains (listed level by level, as the DAG
+    iterator does) that advance at different speeds, so that an operator of the fast chain becomes ready while the
+    operator listed before it, of a slow chain, is still blocked; lower-priority pipelines keep arriving"""
+    tps = rng.choice([1, 2, 10])
+    npools = 2 if algo == 'priority-pool' else rng.choice([1, 2, 3])
+    cpu = rng.choice([2, 4, 8, 10])
+    ram = rng.choice([20, 50, 100])
+    nticks = rng.choice([60, 100, 150])
+    pipes, segs, arrivals = [], [], []
+
+    def op(ticks):
+        return [dict(baseline_cpu_seconds=float(ticks) / tps, cpu_scaling='const', storage_read_gb=0.0,
+                     memory_gb=float(rng.choice([0.25, 0.5, 1])))]
+    for k in range(rng.randint(1, 3)):
+        nch, depth = rng.randint(2, 3), rng.randint(2, 3)
+        speeds = [rng.choice([1, 2]) if c else rng.randint(6, 14) for c in range(nch)]
+        rng.shuffle(speeds)
+        common_root = rng.random() < 0.4
+        dag, ops = ([[]], [op(1)]) if common_root else ([], [])
+        base = len(dag)
+        for lvl in range(depth):
+            for c in range(nch):
+                dag.append(([0] if common_root else []) if lvl == 0 else [base + (lvl - 1) * nch + c])
+                ops.append(op(speeds[c]))
+        pipes.append((rng.choice([1, 1, 2, 3]), dag))
+        segs.append(ops)
+        arrivals.append((rng.choice([0, 0, 1, 2]), len(pipes) - 1))
+    for k in range(rng.randint(1, 6)):
+        n = rng.randint(1, 2)
+        pipes.append((rng.choice([2, 3, 3]), [[j - 1] if j else [] for j in range(n)]))
+        segs.append([op(rng.randint(1, 4)) for _ in range(n)])
+        arrivals.append((rng.randint(1, nticks // 3), len(pipes) - 1))
+    arrivals.sort(key=lambda a: a[0])
+    return dict(gen=gen, algo=algo, tps=tps, over=1 if algo == 'overbook' else 0, multi=0, npools=npools, cpu=cpu,
+                ram=ram, duration=nticks / tps, pipes=pipes, segs=segs, arrivals=arrivals)
